@@ -45,6 +45,28 @@ CHECKS = {
               "implementation must agree with the model on replayed LP answers and is checked against certified must-True/"
               "must-False verdicts."),
         design="4 (C03)", note=NOTE_R),
+    "C11": dict(
+        technique="Coq proof about a hand-written executable model + correspondence (LP replay) + exact evaluation oracle",
+        text=("Theorems C11_contains_exact/_contains_real/_unassigned/_mono (model/Term.v contains_behavior: membership decided exactly, "
+              "boundary included; ValueError iff a constrained variable is unassigned) and C11_is_empty (poly_is_empty true iff no real "
+              "point satisfies the list, for every exact total LP oracle); implementation and model compared exactly inside Coq on "
+              "boundary-adjacent dyadic behaviours and thin systems; answers re-decided with exact rational arithmetic."),
+        design="4 (C11)", note=NOTE_R),
+    "C12": dict(
+        technique="Coq proof about a hand-written executable model + correspondence with LP replay + certified exact oracle",
+        text=("Theorems C12_value/_none/_error/_empty_raises/_unbounded_none/_bounds (props/C12.v) about poly_optimize for every exact "
+              "total LP oracle: the value is the attained optimum, None exactly when non-empty and unbounded in the requested "
+              "direction, ValueError exactly when empty, bounds contain every behaviour; the implementation is replayed through the "
+              "model and compared with an exact rational LP."),
+        design="4 (C12)", note=NOTE_R + " The objective string is parsed by the real grammar (model of the parser: C09)."),
+    "C17": dict(
+        technique="Coq proof about a hand-written executable model + correspondence with LP replay + exact semantic oracle",
+        text=("Theorems C17_contains/_intersect/_le_sound/_disjoint_check/_merge (props/C17.v) about model/Compound.v for every exact "
+              "total LP oracle: membership iff some alternative, intersection alternatives denote exactly the intersection of the "
+              "unions with only empty ones dropped, <= sound, overlap rejected iff two alternatives share a behaviour (touching "
+              "counts), compound merge; every NestedPolyhedra/PolyhedralIoContractCompound operation is replayed through the model "
+              "(exact comparison, canary), and C17 is re-decided exactly on the real objects."),
+        design="4 (C17)", note=NOTE_R),
 }
 
 PENDING_PROOF_REPAIR = set()
@@ -57,13 +79,10 @@ NOT_YET = {
     "C08": "check under construction in this session",
     "C09": "check under construction in this session (grammar model pending)",
     "C10": "check under construction in this session (printer model pending)",
-    "C11": "check under construction in this session",
-    "C12": "check under construction in this session",
     "C13": "check under construction in this session",
     "C14": "check under construction in this session",
     "C15": "check under construction in this session",
     "C16": "check under construction in this session",
-    "C17": "check under construction in this session",
     "C18": "check under construction in this session",
     "C19": "check under construction in this session",
 }
